@@ -189,6 +189,8 @@ def h_inv(params):
                         require(db.index.valid, lambda: f"step {step}: non-decreasing insert (stamped point) invalidated the index")
             elif k == "insm":
                 apply_op(h, ("insm", [P() for _ in range(op[1])]))
+            elif k == "ins_handle":
+                apply_op(h, ("ins", P(), op[1]))
             elif k == "insm_fail":
                 apply_op(h, ("insm_fail", [P() for _ in range(op[1])]))
             elif k == "read":
@@ -207,12 +209,64 @@ def h_inv(params):
             if not ai and k in ("ins", "insm", "rm", "rmall", "drop", "upd", "updall"):
                 pass  # with auto_index off the index may be valid only if it equals a rebuild (checked above)
         if params.get("final_read", True):
-            h.check_reads(h.q(_untuple(params.get("final_q", ("time", ">=", SYM)))), None, what="final read")
+            h.check_reads(h.q(_untuple(params.get("final_q", ("time", ">=", SYM)))), params.get("final_mfilter"), what="final read", via=params.get("final_via"))
             h.check_inv("after final read")
         if params.get("twin"):
             fail("reachability twin")
 
     run_path(cfg_of(params), body)
+
+
+# operation library for multi-operation histories (used by C01/C02/C03 "seq" families and by C06)
+OPLIB = {
+    "ins": ("ins",),
+    "ins_notime": ("ins_notime",),
+    "insm": ("insm", 2),
+    "ins_handle": ("ins_handle", "n"),
+    "rm_tag": ("rm", ("tag", "k", "==", "a")),
+    "rm_tag_ne": ("rm", ("tag", "k", "!=", "a")),
+    "rm_time": ("rm", ("time", "<", SYM)),
+    "rm_time_ge": ("rm", ("time", ">=", SYM)),
+    "rm_notfield": ("rm", ("not", ("field", "f", "<", SYM))),
+    "rm_field": ("rm", ("field", "f", "<", SYM)),
+    "rm_filter_m": ("rm", ("tag", "k", "==", "a"), "m"),
+    "rm_handle_n": ("rm", ("tag", "k", "==", "a"), None, "n"),
+    "rmall": ("rmall",),
+    "rmall_handle": ("rmall", "n"),
+    "drop": ("drop", "n"),
+    "upd": ("upd", ("tag", "k", "==", "a"), {"fields": {"f": SYM}}),
+    "upd_tags": ("upd", ("tag", "k", "==", "a"), {"tags": {"k": "b"}}),
+    "upd_tags_new": ("upd", ("tag", "k", "==", "b"), {"tags": {"j": "x"}}),
+    "upd_meas": ("upd", ("tag", "k", "==", "a"), {"measurement": "n"}),
+    "upd_unset": ("upd", ("tag", "k", "==", "a"), {"unset_tags": "k"}),
+    "upd_time": ("upd", ("tag", "k", "==", "a"), {"time": ("static", SYM)}),
+    "upd_time_cb": ("upd", ("time", ">=", SYM), {"time": ("callable", -2_000_000)}),
+    "upd_handle": ("upd", ("tag", "k", "==", "a"), {"fields": {"g": 1}}, "m"),
+    "updall": ("updall", {"tags": {"z": "1"}}),
+    "updall_handle": ("updall", {"unset_tags": "k"}, "m"),
+    "upd_fail": ("upd_fail", ("tag", "k", "!=", "zz"), "fields"),
+    "insm_fail": ("insm_fail", 1),
+    "read": ("read", ("time", ">=", SYM)),
+    "read_tag": ("read", ("tag", "k", "==", "a")),
+    "all": ("all",),
+    "reindex": ("reindex",),
+}
+
+
+def seq_torder(names):
+    """Symbolic stored times up to four inserted points (three when measurements are symbolic too);
+    a fixed out-of-order layout beyond (path count)."""
+    n = sum({"ins": 1, "ins_notime": 1, "ins_handle": 1, "insm": 2}.get(o, 0) for o in names)
+    heavy = any("handle" in o or o in ("upd_meas", "drop", "rm_filter_m") for o in names)
+    return "sym" if n <= (3 if heavy else 4) else "ooo"
+
+
+def thin(items, n):
+    """An evenly spaced slice of n items (all of them when there are no more than n); deterministic."""
+    if len(items) <= n:
+        return list(items)
+    step = len(items) / n
+    return [items[int(k * step + step / 2)] for k in range(n)]
 
 
 def _us(t):
